@@ -203,6 +203,46 @@ fn catch<T>(f: impl FnOnce() -> T) -> Result<T, String> {
     std::panic::catch_unwind(std::panic::AssertUnwindSafe(f)).map_err(|p| crate::exec::panic_message(&p))
 }
 
+/// Runs in a process of its own (`vcheck --c07-configs <order>`): a 64 KiB message is encoded and
+/// decoded under the default configuration and a 100-byte one under a configuration limited to
+/// 2 KiB frames, in the given order; one line of JSON per step on stdout.
+pub fn configs_in_fresh_process(order: &str) {
+    let rt = rt();
+    let limited = {
+        let mut c = anemo::Config::default();
+        c.max_frame_size = Some(2048);
+        c
+    };
+    let default = anemo::Config::default();
+    let steps: Vec<(&str, &anemo::Config, usize)> = match order {
+        "limited-first" => vec![("limited", &limited, 100), ("default", &default, 65_536), ("limited", &limited, 100)],
+        _ => vec![("default", &default, 65_536), ("limited", &limited, 100), ("default", &default, 65_536)],
+    };
+    for (name, cfg, len) in steps {
+        let body: Vec<u8> = (0..len).map(|i| (i % 251) as u8).collect();
+        let r: Result<(), String> = (|| {
+            let q = Request::new(Bytes::from(body.clone())).with_route("/r").with_header("k", "v");
+            let mut enc: Vec<u8> = vec![];
+            rt.block_on(async { wire::write_request(&mut enc, cfg, q).await }).map_err(|e| format!("encode: {e}"))?;
+            let mut rd = Chunked { data: &enc, cuts: vec![], pos: 0, pending_next: false };
+            let back = rt.block_on(async { wire::read_request(&mut rd, cfg).await }).map_err(|e| format!("decode: {e}"))?;
+            if back.route() != "/r" || back.body().as_ref() != body.as_slice() {
+                return Err("round trip altered the message".into());
+            }
+            let p = Response::new(Bytes::from(body.clone())).with_header("k", "v");
+            let mut enc: Vec<u8> = vec![];
+            rt.block_on(async { wire::write_response(&mut enc, cfg, p).await }).map_err(|e| format!("encode response: {e}"))?;
+            let mut rd = Chunked { data: &enc, cuts: vec![], pos: 0, pending_next: false };
+            let back = rt.block_on(async { wire::read_response(&mut rd, cfg).await }).map_err(|e| format!("decode response: {e}"))?;
+            if back.body().as_ref() != body.as_slice() {
+                return Err("round trip altered the response".into());
+            }
+            Ok(())
+        })();
+        println!("{}", json!({"config": name, "len": len, "ok": r.is_ok(), "err": r.err()}));
+    }
+}
+
 fn run(unit: &Value, tier: Tier, out: &mut UnitResult) {
     let rt = rt();
     let rp = |tag: &str, detail: Value| json!({"unit": unit, "case": tag, "detail": detail});
@@ -284,6 +324,32 @@ fn run(unit: &Value, tier: Tier, out: &mut UnitResult) {
                                 Err(p) => out.violation("codec-panics", format!("response codec panicked: {p}"), rp("roundtrip", json!({"status": code}))),
                             }
                         }
+                    }
+                }
+            }
+        }
+        "configs" => {
+            // the codecs of two configurations used in one process, in both orders, each order in
+            // a process of its own (whatever the codecs keep between calls starts empty)
+            for order in ["limited-first", "default-first"] {
+                out.evaluations += 1;
+                let exe = std::env::current_exe().unwrap();
+                let o = std::process::Command::new(exe).arg("--c07-configs").arg(order).output();
+                match o {
+                    Err(e) => out.machinery_errors.push(format!("cannot run the configs probe: {e}")),
+                    Ok(o) => {
+                        let text = String::from_utf8_lossy(&o.stdout).to_string();
+                        let lines: Vec<Value> = text.lines().filter_map(|l| serde_json::from_str(l).ok()).collect();
+                        if lines.len() != 3 {
+                            out.violation("decoder-panics", format!("two configurations used {order} in one process: the process ended after {} of 3 steps ({})", lines.len(), String::from_utf8_lossy(&o.stderr).lines().last().unwrap_or("")), rp("configs", json!(order)));
+                            continue;
+                        }
+                        for l in &lines {
+                            if l["ok"] != true {
+                                out.violation("request-codec", format!("two configurations used {order} in one process (a 2 KiB frame limit and the default): a {} byte message does not round-trip under the {} configuration: {}", l["len"], l["config"], l["err"]), rp("configs", json!(order)));
+                            }
+                        }
+                        out.class(format!("configs {order}"));
                     }
                 }
             }
@@ -595,6 +661,7 @@ impl Check for C07 {
         for part in 0..8 {
             u.push(json!({"kind":"sizes","part":part,"parts":8,"on_death":"decoder-aborts-process"}));
         }
+        u.push(json!({"kind":"configs","on_death":"decoder-aborts-process"}));
         u
     }
 
